@@ -155,7 +155,7 @@ func (c *Check) Violation(cas any, why string) {
 	payload := map[string]any{"property": c.ID, "tier": c.Tier, "seed": c.Seed, "why": why, "case": cas}
 	bs, _ := json.MarshalIndent(payload, "", " ")
 	h := sha256.Sum256(reScratch.ReplaceAll(bs, []byte("/tmp/SCRATCH")))
-	dir := filepath.Join(Root(), "replays")
+	dir := filepath.Join(outRoot(), "replays")
 	name := c.ID + "-" + hex.EncodeToString(h[:6]) + ".json"
 	if want := os.Getenv("VERIF_REPLAY_FILE"); want != "" {
 		// replay mode: only the recorded case counts
@@ -223,7 +223,7 @@ func (c *Check) Finish() int {
 		ev["assumptions"] = []string{}
 	}
 	bs, _ := json.MarshalIndent(ev, "", " ")
-	dir := filepath.Join(Root(), "evidence")
+	dir := filepath.Join(outRoot(), "evidence")
 	os.MkdirAll(dir, 0o755)
 	if err := os.WriteFile(filepath.Join(dir, c.ID+".json"), append(bs, '\n'), 0o644); err != nil {
 		fmt.Println("HARNESS-ERROR cannot write evidence: " + err.Error())
@@ -255,4 +255,13 @@ func Debugf(format string, a ...any) {
 	if os.Getenv("VERIF_DEBUG") != "" {
 		fmt.Printf("debug: "+format+"\n", a...)
 	}
+}
+
+// outRoot is where evidence and replays go: /verif, or VERIF_OUT when a seeded change is being tested on a scratch
+// copy (bin/mutest), so that such runs never overwrite the evidence of the real tree.
+func outRoot() string {
+	if d := os.Getenv("VERIF_OUT"); d != "" {
+		return d
+	}
+	return Root()
 }
